@@ -1124,7 +1124,7 @@ impl Generatable for Expression
 					}
 					ValueType::Usize =>
 					{
-						let value_bits = (value & 0xFFFFFFFF) as u64;
+						let value_bits = (value & 0xFFFFFFFFFFFFFFFF) as u64;
 						Ok(llvm.const_usize(value_bits as usize))
 					}
 					_ if value <= u64::MAX as u128 =>
